@@ -1,13 +1,13 @@
 """C17 — configuration text becomes exactly the configuration it spells, or a clean error."""
-import json, os, threading
-from verifkit import read_lines, VERIF
+import json, os, threading, hashlib, shutil, subprocess, glob as _glob
+from verifkit import read_lines, VERIF, REPO, CACHE
 
 REQUIRED = ["DaeVerif.C17.Props." + n for n in [
     "tokens_iff_tree", "parse_spells", "lexer_accounts_for_every_character", "lexer_reads_back", "parse_render",
     "parse_render_canonical", "wfCheck_establishes_WF", "skips_whitespace", "skips_line_comment", "skips_block_comment", "skips_concat",
     "walk_keeps_every_item", "walkFn_faithful",
     "merge_order", "relative_includes_resolve_against_entry_dir", "merge_into_appends", "circular_include_rejected", "include_of_visited_rejected",
-    "merge_no_path_twice", "merge_reads_confined", "confined_means_under", "merge_terminates_partial",
+    "merge_no_path_twice", "merge_reads_confined", "confined_means_under", "merge_terminates", "merge_terminates_partial",
     "unknown_section_rejected", "missing_required_section_rejected", "unknown_and_missing_keys_rejected",
     "unknown_key_rejected_one_struct", "missing_required_key_rejected_one_struct", "written_list_replaces_default", "defaults_applied", "defaults_applied_scalar", "defaults_applied_any_depth",
     "default_routing_fallback_applied", "default_http_method_applied",
@@ -120,6 +120,73 @@ def merge_stats(ctx, names):
     return counters, samples
 
 
+def _sh(cmd):
+    return subprocess.run(cmd, stdout=subprocess.PIPE, stderr=subprocess.DEVNULL).stdout
+
+
+def cached_build(ctx, pkg, files, out_name, tags):
+    """Linking the cmd/control test binaries costs 40-90 s even with a warm Go build cache.  Reuse the
+    binary of an earlier run when NOTHING that goes into it changed: the harness files, the shared
+    helper template, the build tags and the complete state of the repo under test (HEAD, diff against
+    HEAD, untracked Go files)."""
+    h = hashlib.sha1()
+    h.update((pkg + "|" + tags + "|" + REPO + "|").encode())
+    for f in list(files) + [os.path.join(VERIF, "harness", "util", "vutil.go.tmpl")]:
+        src = f if os.path.isabs(f) else os.path.join(VERIF, "harness", "overlay", f)
+        h.update(open(src, "rb").read())
+    h.update(_sh(["git", "-C", REPO, "rev-parse", "HEAD"]))
+    h.update(_sh(["git", "-C", REPO, "diff", "HEAD"]))
+    status = _sh(["git", "-C", REPO, "status", "--porcelain"])
+    h.update(status)
+    for line in status.decode("utf-8", "replace").split("\n"):
+        if line.startswith("??") and line.strip().endswith(".go"):
+            try:
+                h.update(open(os.path.join(REPO, line[3:].strip()), "rb").read())
+            except OSError:
+                pass
+    h.update(_sh(["go", "version"]))
+    cdir = os.path.join(CACHE, "bin", "c17cache")
+    os.makedirs(cdir, exist_ok=True)
+    cached = os.path.join(cdir, f"{out_name}-{h.hexdigest()[:16]}.test")
+    if os.path.exists(cached) and os.environ.get("VERIF_C17_NO_BINCACHE") != "1":
+        ctx.log.write(f"$ reuse cached harness binary {cached}\n")
+        return cached
+    binp = ctx.go_test_build(pkg, files, out_name, tags=tags)
+    if binp:
+        old = sorted(_glob.glob(os.path.join(cdir, out_name + "-*.test")), key=os.path.getmtime)
+        for o in old[:-3]:
+            os.unlink(o)
+        tmp = cached + f".tmp{os.getpid()}"
+        shutil.copy2(binp, tmp)
+        os.replace(tmp, cached)
+        return cached
+    return None
+
+
+# Generator floors: a run whose inputs did not reach these classes is not evidence (exit 2, not OK).
+# Calibrated at ≈ 40 % of the smallest count seen over seeds 1..3; skipped when a size is overridden.
+FLOORS = {
+    "quick": {
+        "grammar.accepted": 2500, "nearmiss.accepted": 1200, "bytes.accepted": 60, "nearmiss.rejected": 3500,
+        "cfg.result.ok": 450, "cfg.result.err:unknownSection": 25, "cfg.result.err:unexpectedKey": 100,
+        "cfg.result.err:requiredParam": 30, "cfg.result.err:requiredSection": 70, "cfg.result.err:convert": 300,
+        "cfg.mut.unknown-section-near-miss": 30, "cfg.mut.unknown-key-near-miss": 100, "dec.accepted": 300, "dec.rejected": 800,
+        "inc.result.ok": 150, "inc.result.err:circular": 15, "inc.result.err:scope": 10, "inc.result.err:suffix": 10,
+        "inc.result.err:isDir": 8, "inc.result.err:perm": 50, "inc.result.err:parse": 8, "inc.result.err:glob": 5,
+        "inc.result.err:includeGrammar": 8, "inc.result.err:open": 4, "inc.result.err:statErr": 1, "inc.opened.files": 400,
+        "inc.entry-spelling.relative-here": 10, "inc.entry-spelling.relative-dotdot": 10, "inc.entry-spelling.abs-dotdot": 8,
+        "inc.entry-spelling.symlink-inside": 8, "inc.entry-spelling.symlink-outside": 4, "inc.entry-spelling.trailing-slash": 4,
+        "inc.directed.nested-relative": 1, "inc.keyed-item": 20, "inc.function-item": 15,
+        "z.boundary.total-1024": 3, "z.boundary.total-1025": 3, "z.boundary.domain-set-at-index-1023": 3,
+        "z.boundary.domain-set-at-index-1024": 3, "z.r.result.ok": 10, "z.r.result.err:oversize": 5,
+        "pipeline.routing.built": 120, "pipeline.dns.built": 100, "pipeline.group.policy-ok": 100, "stress.params": 1, "stress.nest": 1,
+        "e2e.result.accepted": 15, "e2e.result.rejected": 100, "child.processes.all": 2,
+    },
+}
+FLOORS["thorough"] = {k: (v * 8 if v > 3 and not k.startswith(("z.boundary", "stress", "inc.directed", "child")) else v)
+                      for k, v in FLOORS["quick"].items()}
+
+
 class Part:
     """one harness binary: build, run its shards in parallel, model every stream, diff."""
 
@@ -148,7 +215,7 @@ class Part:
     def run(self):
         ctx = self.ctx
         with self.sem:
-            binp = ctx.go_test_build(self.pkg, self.files, self.out_name, tags=self.tags)
+            binp = cached_build(ctx, self.pkg, self.files, self.out_name, self.tags)
         if not binp:
             self.failed = "build failed"
             return
@@ -225,6 +292,13 @@ def run(ctx):
     if ncd:
         ctx.say(f"NOTE property=C17 {ncd} inputs are rejected by both sides with a DIFFERENT error class (not part of the property; see the streams)")
     counters, samples = merge_stats(ctx, names)
+
+    if not any(k.startswith("VERIF_C17_") and k.endswith("_N") for k in os.environ):
+        low = [f"{k}={counters.get(k, 0)}<{v}" for k, v in sorted(FLOORS[ctx.tier].items()) if counters.get(k, 0) < v]
+        ctx.cov["generator_floors"] = {"checked": len(FLOORS[ctx.tier]), "below": low}
+        if low:
+            ctx.say("GENERATOR-FLOOR property=C17 input classes below their floor (not evidence): " + ", ".join(low))
+            return 2
 
     # accepted, non-trivial inputs (AST / typed config / merged tree compared field by field)
     distinct = set()
